@@ -359,32 +359,43 @@ def UrlReassignIdempotent : Prop :=
     P.split (url r') = some (r'.scheme, hostport r'.scheme r'.host r'.port, r'.path) →
     setUrl P r' (url r') = some r'
 
+private theorem update_path_fix (P : UrlLib) (r0 : Req) (π : Str) :
+    update P { update P r0 with path := π } = { update P r0 with path := π } := by
+  unfold update
+  cases hh : r0.hostHeader <;> by_cases ha : r0.authority = [] <;> simp [ha]
+  all_goals
+    by_cases hn : P.normAuth (hostport r0.scheme r0.host r0.port) = [] <;> simp [hn]
+
+private theorem reassign_fix (P : UrlLib) (r' : Req) (hfix : update P r' = r') :
+    ({ setPort P (setHost P { r' with scheme := r'.scheme } r'.host) r'.port with path := r'.path } : Req) = r' := by
+  have e1 : setHost P { r' with scheme := r'.scheme } r'.host = r' := by
+    show update P r' = r'
+    exact hfix
+  rw [e1]
+  have e2 : setPort P r' r'.port = r' := by
+    show update P r' = r'
+    exact hfix
+  rw [e2]
+
 /-- **C33 (url, partial).** If `url.parse` reads the URL that the getter returns back into the request's own fields — which it does
     for ASCII hosts — then assigning `request.url` again leaves the request exactly as it is (Host header and authority included). -/
 theorem url_get_set_idempotent_partial (P : UrlLib) (r : Req) (u : Str) (r' : Req) (h1 : setUrl P r u = some r')
     (hcanon : urlParse P (url r') = some (r'.scheme, r'.host, r'.port, r'.path)) :
     setUrl P r' (url r') = some r' := by
-  unfold setUrl at h1 ⊢
+  have hfix : update P r' = r' := by
+    unfold setUrl at h1
+    cases hp : urlParse P u with
+    | none => rw [hp] at h1; cases h1
+    | some q =>
+      obtain ⟨s, h, p, path⟩ := q
+      rw [hp] at h1
+      simp only [Option.some.injEq, setPort] at h1
+      rw [← h1]
+      exact update_path_fix P _ path
+  unfold setUrl
   rw [hcanon]
-  cases hp : urlParse P u with
-  | none => rw [hp] at h1; cases h1
-  | some q =>
-    obtain ⟨s, h, p, path⟩ := q
-    rw [hp] at h1
-    simp only [Option.some.injEq] at h1 ⊢
-    -- r' = { update P r1 with path := path }
-    let r1 : Req := { setHost P { r with scheme := s } h with port := p }
-    have e' : r' = { update P r1 with path := path } := h1.symm
-    have i := update_idem P r1
-    rw [e']
-    simp only [setPort, setHost]
-    have a : update P { update P r1 with path := path } = { update P (update P r1) with path := path } := rfl
-    have b : ({ ({ update P r1 with path := path } : Req) with scheme := ({ update P r1 with path := path } : Req).scheme,
-                host := ({ update P r1 with path := path } : Req).host } : Req) = { update P r1 with path := path } := rfl
-    rw [b, a, i]
-    have c : ({ ({ update P r1 with path := path } : Req) with port := ({ update P r1 with path := path } : Req).port } : Req)
-        = { update P r1 with path := path } := rfl
-    rw [c, a, i]
+  simp only [Option.some.injEq]
+  exact reassign_fix P r' hfix
 
 /-! ### F-C33b: IDN hosts -/
 private def uA : Str := S "http://xn--bcher-kva.example/p"
